@@ -15,7 +15,7 @@ func init() {
 	register("C15", &propDef{
 		Title:           "Unpack materialises exactly what a well-formed archive says",
 		ConfigSensitive: true,
-		Rules: []func(*Checker){ruleGate("C15.gate"), ruleC15Deferred, ruleC15Truncate, ruleMaterialise("C15.materialise"), ruleRestore("C15.restore"), ruleMeta("C15.meta"), ruleC01NoFollowAs("C15.lastwins"), ruleC15XHeader, ruleC15Retry, aliasRule(ruleC01Replace, "C01.replace", "C15.replace", 1),
+		Rules: []func(*Checker){ruleGate("C15.gate"), ruleC15Deferred, ruleC15Truncate, ruleMaterialise("C15.materialise"), ruleRestore("C15.restore"), ruleMeta("C15.meta"), ruleC01NoFollowAs("C15.lastwins"), ruleC15XHeader, ruleC15Retry, ruleLinkRestore("C15.linkrestore"), aliasRule(ruleC01Replace, "C01.replace", "C15.replace", 1),
 			aliasRuleFiltered(ruleC02LinkTarget, "C02.linktarget", "C15.linktarget", 1, func(o Oblig) bool { return strings.Contains(o.Key, "Unpack") }),
 			aliasRuleFiltered(ruleC12Errors, "C12.errors", "C15.errors", 5, func(o Oblig) bool {
 				return strings.Contains(o.Key, "(*slug.Packer).Unpack") || strings.Contains(o.Key, "unpackinfo.")
@@ -29,7 +29,7 @@ func init() {
 	register("C02", &propDef{
 		Title:           "Pack followed by Unpack reproduces the source tree",
 		ConfigSensitive: true,
-		Rules: []func(*Checker){ruleC02Kinds, ruleMaterialise("C02.materialise"), ruleRestore("C02.restore"), ruleC02Fields, ruleMeta("C02.meta"), ruleC02Omit, ruleC04Accept2("C02.links"), aliasRule(ruleC05Link, "C05.link", "C02.linkkept", 2), ruleC02LinkTarget, ruleLinkPrecise("C02.linkprecise"), ruleFilesClosed("C02.closed"),
+		Rules: []func(*Checker){ruleC02Kinds, ruleMaterialise("C02.materialise"), ruleRestore("C02.restore"), ruleC02Fields, ruleMeta("C02.meta"), ruleC02Omit, ruleC04Accept2("C02.links"), aliasRule(ruleC05Link, "C05.link", "C02.linkkept", 2), ruleC02LinkTarget, ruleLinkPrecise("C02.linkprecise"), ruleFilesClosed("C02.closed"), ruleLinkRestore("C02.linkrestore"),
 			aliasRuleFiltered(ruleC03Prune, "C03.prune", "C02.skipdir", 1, func(o Oblig) bool { return strings.Contains(o.Key, "SkipDir only for directories") }),
 			aliasRuleFiltered(ruleC12Whole, "C12.whole", "C02.noskip", 1, func(o Oblig) bool { return strings.Contains(o.Key, "back edge") })},
 		NotDecided: []string{
@@ -1240,5 +1240,75 @@ func ruleC15XHeader(c *Checker) {
 			pos = p.Pos(ci.Pos())
 		}
 		c.check(bad == "", R, p.FuncName(u.Unpack), fmt.Sprintf("no filesystem effect for a type %q record", rune(k)), pos, "no mutating call on the entry's path is reachable", bad+" on a path derived from the record's name is reachable for a PAX header record: unpacking the output of tar --format=posix --pax-option=… leaves a stray directory (tmp/ for GNU tar's /tmp/GlobalHead.1) in the destination, or fails when the slug has a file of that name")
+	}
+}
+
+// ruleLinkRestore — what is reached from the is-a-symlink branch of the
+// metadata dispatcher never follows the link.
+func ruleLinkRestore(id string) func(*Checker) {
+	return func(c *Checker) {
+		c.rule(id, "In unpackinfo, every module function called behind the true edge of IsSymlink() in the metadata dispatcher — and everything those functions call inside the module — is free of os.Chmod, os.Chtimes, os.Chown and os.Truncate: they act on what the link points to, so restoring a link with the directory or file routine gives the TARGET the link's mode 0777 and time (and, with an allow-listed external target, changes something outside the destination).", 1)
+		p := c.P
+		follows := func(o *types.Func) bool {
+			return isFunc(o, "os", "Chmod") || isFunc(o, "os", "Chtimes") || isFunc(o, "os", "Chown") || isFunc(o, "os", "Truncate")
+		}
+		var reachesFollow func(fn *ssa.Function, seen map[*ssa.Function]bool) (string, bool)
+		reachesFollow = func(fn *ssa.Function, seen map[*ssa.Function]bool) (string, bool) {
+			if seen[fn] {
+				return "", false
+			}
+			seen[fn] = true
+			for _, ci := range callsIn(fn) {
+				g := ci.Common().StaticCallee()
+				if g == nil {
+					continue
+				}
+				if o, ok := g.Object().(*types.Func); ok && follows(o) {
+					return p.FuncName(fn) + " calls " + o.FullName() + " at " + p.Pos(ci.Pos()), true
+				}
+				if p.InModule(g) {
+					if w, ok := reachesFollow(g, seen); ok {
+						return w, true
+					}
+				}
+			}
+			for _, an := range fn.AnonFuncs {
+				if w, ok := reachesFollow(an, seen); ok {
+					return w, true
+				}
+			}
+			return "", false
+		}
+		for _, fn := range p.Funcs {
+			if fn.Pkg == nil || !strings.HasSuffix(fn.Pkg.Pkg.Path(), "/unpackinfo") {
+				continue
+			}
+			linkT, _ := condEdges(fn, func(v ssa.Value) bool {
+				call, ok := v.(*ssa.Call)
+				if !ok {
+					return false
+				}
+				g := call.Common().StaticCallee()
+				return g != nil && g.Name() == "IsSymlink"
+			})
+			if len(linkT) == 0 {
+				continue
+			}
+			for _, ci := range callsIn(fn) {
+				g := ci.Common().StaticCallee()
+				if g == nil || !guarded(ci.Block(), linkT) {
+					continue
+				}
+				if o, ok := g.Object().(*types.Func); ok && follows(o) {
+					c.fail(id, p.FuncName(fn), "call of "+o.Name()+" behind the is-a-symlink edge", p.Pos(ci.Pos()), o.FullName()+" follows the link it is given")
+					continue
+				}
+				if !p.InModule(g) {
+					continue
+				}
+				w, bad := reachesFollow(g, map[*ssa.Function]bool{})
+				c.check(!bad, id, p.FuncName(fn), "call of "+g.Name()+" behind the is-a-symlink edge", p.Pos(ci.Pos()), "nothing reachable from it follows a link", "a link is restored through a routine that follows it: "+w)
+			}
+		}
 	}
 }
